@@ -106,7 +106,7 @@ package stream
 //@   ensures#prefix exists k in 0..len(old(w.unwritten))+17 :: w.dst.$out == cat(old(w.dst.$out), sub(seal(w.a.$key, nonceOf(old(ctr(w.nonce)), (last ? 1 : 0)), old(bytes(w.unwritten))), 0, k))   [C13]
 //@   ensures#state len(w.unwritten) == 0 && ctr(w.nonce) == old(ctr(w.nonce)) + 1 && w.nonce[11] == (last ? 1 : 0)    [C02 C05 C06 C12]
 //@   ensures#inv rg(w.unwritten) == rg(w.buf) && off(w.unwritten) == 0 && cap(w.unwritten) == ECS && bytes12(w.nonce) && w.err == old(w.err) && w.dst == old(w.dst) && w.a == old(w.a)
-//@   modifies w.unwritten, w.buf, w.nonce, w.dst.$out
+//@   modifies w.unwritten, w.buf, w.nonce, w.dst.$out, w.dst.$wn
 
 //@ func (*Writer).Write(w, p) (n, err)
 //@   requires#inv winv(w) && disjoint(p, w.buf) && disjoint(p, w.nonce)
@@ -124,7 +124,7 @@ package stream
 //@   ensures#empty (len(p) == 0 && old(w.err) == nil) ==> err == nil && w.dst.$out == old(w.dst.$out) && len(w.unwritten) == len(old(w.unwritten)) && ctr(w.nonce) == old(ctr(w.nonce))   [C12]
 //@   ensures#holdback (err == nil && len(p) > 0) ==> len(w.unwritten) > 0 && len(w.unwritten) <= CS                   [C12]
 //@   ensures#count (err == nil && len(p) > 0) ==> old(len(w.unwritten)) + len(p) == CS * (ctr(w.nonce) - old(ctr(w.nonce))) + len(w.unwritten)   [C06 C12]
-//@   modifies w.unwritten, w.buf, w.nonce, w.err, w.dst.$out
+//@   modifies w.unwritten, w.buf, w.nonce, w.err, w.dst.$out, w.dst.$wn
 
 //@ func (*Writer).Close(w) (err)
 //@   requires#inv winv(w)
@@ -134,7 +134,7 @@ package stream
 //@   ensures#final (old(w.err) == nil && err == nil) ==> w.dst.$out == cat(old(w.dst.$out), seal(w.a.$key, nonceOf(old(ctr(w.nonce)), 1), old(bytes(w.unwritten))))   [C01 C05 C12 C13]
 //@   ensures#flag old(w.err) == nil ==> w.nonce[11] == 1 && ctr(w.nonce) == old(ctr(w.nonce)) + 1                     [C02 C05 C06]
 //@   ensures#errret (old(w.err) == nil && err != nil) ==> w.err == err                                                [C13]
-//@   modifies w.unwritten, w.buf, w.nonce, w.err, w.dst.$out
+//@   modifies w.unwritten, w.buf, w.nonce, w.err, w.dst.$out, w.dst.$wn
 
 // io.Copy and friends dispatch on optional interfaces (io.WriterTo,
 // io.ReaderFrom): the streams offer exactly the methods under contract.
